@@ -142,6 +142,24 @@ def lru_assembly(ctx, rr):
         if not rev:
             rr.fail(ctx.finding('R-LRU-ASSEMBLY', w, w.node, 'windup_lru joins the stems in the order it climbed (`%s` is never reversed): the LRU read back is the stored LRU backwards' % L_,
                                 stmt='windup list order'))
+    # windup_lru gives up early only for a block that is no node head at all (missing, or a tail fragment): any other early exit
+    # loses real nodes (a head WITH a tail is a perfectly good long-stem node)
+    from ..dataflow import test_leaves as _tl
+    for r_ in P.own(w, ast.Return):
+        cur_ = P.parent.get(id(r_))
+        guards = []
+        while cur_ is not None and cur_ is not w.node:
+            if isinstance(cur_, ast.If):
+                guards += _tl(cur_.test)
+            cur_ = P.parent.get(id(cur_))
+        if not guards:
+            continue
+        legit = all((isinstance(g_, ast.Attribute) and g_.attr == 'exists') or (isinstance(g_, ast.Call) and isinstance(g_.func, ast.Attribute) and g_.func.attr == 'is_tail')
+                    or (isinstance(g_, ast.Compare) and 'block' in ast.unparse(g_)) for g_ in guards)
+        rr.ob(ctx.where(w, r_), 'windup_lru returns early only for a block that is not the head of a node', ok=legit)
+        if not legit:
+            rr.fail(ctx.finding('R-LRU-ASSEMBLY', w, r_, 'windup_lru gives up under `%s`: real nodes (e.g. every node whose stem is longer than one block) are not reconstructed bottom-up '
+                                'although the lookup and the traversal find them' % ', '.join(ast.unparse(g_)[:30] for g_ in guards), stmt='windup early return'))
     rr.ob(ctx.where(w), 'windup_lru follows node_parents_iter', ok=ok)
     if not ok:
         rr.fail(ctx.finding('R-LRU-ASSEMBLY', w, w.node, 'windup_lru no longer walks the parent chain', stmt='windup parents'))
@@ -505,8 +523,25 @@ def prefix_edit(ctx, rr):
         facts = gf.facts_at(r.exc) or set()
         if any(f[0] == 'T' and f[1] == 'check_for_corruption' for f in facts):
             n_ok += 1
+    # ... whatever else the request says: the consistency block is entered whenever check_for_corruption is set (no extra conjunct)
+    for r in raises:
+        cur_ = P.parent.get(id(r))
+        while cur_ is not None and cur_ is not dl.node:
+            if isinstance(cur_, ast.If) and any(isinstance(x, ast.Name) and x.id == 'check_for_corruption' for x in ast.walk(cur_.test)):
+                from ..dataflow import test_leaves as _tld
+                # an extra conjunct that speaks only about the request's arguments (not about the node that is being checked) gates the whole check
+                extra_ = [g_ for g_ in _tld(cur_.test) if not (isinstance(g_, ast.Name) and g_.id == 'check_for_corruption')
+                          and {x.id for x in ast.walk(g_) if isinstance(x, ast.Name)} <= set(dl.params)]
+                if extra_:
+                    n_ok = 0
+                    rr.fail(ctx.finding('R-PREFIX-EDIT', dl, cur_, 'delete_webentity runs its consistency check only when `%s` also holds: for the other requests a deletion that names a '
+                                        'missing prefix or the prefix of another webentity is carried out instead of refused' % ast.unparse(extra_[0])[:40], stmt='delete check gate'))
+                break
+            cur_ = P.parent.get(id(cur_))
+        if n_ok == 0:
+            break
     rr.ob(ctx.where(dl), 'delete_webentity(check_for_corruption=True) refuses missing prefixes and prefixes of another webentity', ok=n_ok >= 2)
-    if n_ok < 2:
+    if 0 < n_ok < 2 or (n_ok == 0 and not rr.findings):
         rr.fail(ctx.finding('R-PREFIX-EDIT', dl, dl.node, 'delete_webentity lost one of its consistency refusals', stmt='delete checks'))
     # a deletion detaches: unset_webentity, never set to another id
     un = [c for c in P.own(dl, ast.Call) if isinstance(c.func, ast.Attribute) and c.func.attr in ('unset_webentity', 'set_webentity')]
@@ -834,8 +869,30 @@ def hierarchy(ctx, rr):
         W = u.call_params[0]
         inner = [f for f in ast.walk(u.node) if isinstance(f, ast.For) and isinstance(f.iter, ast.Call) and any(t.name == walk for t in P.targets(f.iter))]
         if len(inner) != 1 and walk == 'node_parents_iter':
-            # an in-place climb: each step must move to the parent before looking at the node
-            wl = [w for w in ast.walk(u.node) if isinstance(w, ast.While) and 'has_parent' in ast.unparse(w.test)]
+            # an in-place climb spelled `X = start.parent_node(); while True: inspect; if not X.has_parent(): break; X.read_parent()`:
+            # every move (parent_node / read_parent) is followed by an inspection of the node reached before the next move or the end
+            wt = [w for w in ast.walk(u.node) if isinstance(w, ast.While) and isinstance(w.test, ast.Constant) and w.test.value is True
+                  and any(isinstance(c, ast.Call) and isinstance(c.func, ast.Attribute) and c.func.attr == 'read_parent' for c in ast.walk(w))]
+            outer_ = [f for f in ast.walk(u.node) if isinstance(f, ast.For) and wt and any(x is wt[0] for x in ast.walk(f))]
+            if len(wt) == 1 and outer_:
+                rows = tables(ctx, u, stmts=outer_[0].body, iters=2, keep=lambda n, c: n in ('read_parent', 'parent_node', 'has_parent', 'webentity', 'add'))
+                badc = []
+                for r in rows:
+                    if r.outcome == 'again':
+                        continue
+                    toks = ''.join('M' if e.name in ('read_parent', 'parent_node') else 'W' for e in r.events if e.kind == 'call' and e.name in ('read_parent', 'parent_node', 'webentity'))
+                    import re as _re2
+                    if any(e.kind == 'raise' for e in r.events):
+                        continue
+                    if not _re2.match(r'^(MW+)*$', toks):
+                        badc.append((r, toks))
+                rr.ob(ctx.where(u, wt[0]), '%s climbs in place: every ancestor reached is inspected before the walk moves on or ends (%d rows)' % (qual, len(rows)), ok=not badc)
+                for r, toks in badc[:1]:
+                    rr.fail(ctx.finding('R-HIERARCHY', u, wt[0], '%s climbs in place but does not inspect every ancestor it reaches (trace %s; M=move to parent, W=webentity read): an ancestor '
+                                        'webentity (typically the topmost) is missing from the answer, or the starting prefix itself is inspected' % (qual, toks), detail={'row': r.show()[:300]}))
+                # what is collected: same table obligations as the iterator form, on the loop body
+                inner = [wt[0]]
+            wl = [w for w in ast.walk(u.node) if isinstance(w, ast.While) and 'has_parent' in ast.unparse(w.test)] if len(inner) != 1 else []
             if len(wl) == 1:
                 rows = tables(ctx, u, stmts=wl[0].body, iters=1, keep=lambda n, c: n in ('read_parent', 'webentity', 'add'))
                 badc = []
@@ -874,7 +931,13 @@ def hierarchy(ctx, rr):
         for r, msg in bad:
             rr.fail(ctx.finding('R-HIERARCHY', u, inner[0], '%s: %s' % (qual, msg), detail={'row': r.show()[:300]}))
         # the walk starts at the node of each prefix
-        c = inner[0].iter
+        c = inner[0].iter if isinstance(inner[0], ast.For) else None
+        if c is None:
+            pn_ = [x for x in P.own(u, ast.Call) if isinstance(x.func, ast.Attribute) and x.func.attr == 'parent_node' and isinstance(x.func.value, ast.Name)]
+            if len(pn_) != 1:
+                raise AnalysisError('R-HIERARCHY: start of the in-place climb of %s not recognised' % qual)
+            c = ast.Call(func=pn_[0].func, args=[pn_[0].func.value], keywords=[])
+            ast.copy_location(c, pn_[0])
 
         def comes_from_lru_node(name, seen=()):
             if name in seen:
